@@ -165,6 +165,9 @@ func ParseChunk(buf []byte) (*Chunk, error) {
 	if err != nil {
 		return nil, fmt.Errorf("failed to read compression: %w", err)
 	}
+	if recordsLength > uint64(len(buf)-offset) {
+		return nil, fmt.Errorf("chunk records length %d exceeds the %d bytes remaining in the record: %w", recordsLength, len(buf)-offset, io.ErrShortBuffer)
+	}
 	records := buf[offset : offset+int(recordsLength)]
 	return &Chunk{
 		MessageStartTime: messageStartTime,
